@@ -26,7 +26,8 @@ Proof. unfold hdr_is_control, is_control. lia. Qed.
 Lemma size_applies_gen mx op : size_check_applies mx op = negb (mx =? 0) && is_data op.
 Proof. unfold size_check_applies, is_data. cbn [ws_mem]. lia. Qed.
 
-Lemma size_reject_gen tr mx pl : size_reject (Z.of_N tr) (Z.of_N mx) (Z.of_N pl) = (mx <=? tr + pl).
+Lemma size_reject_gen tr mx pl :
+  size_reject (Z.of_N tr) (Z.of_N mx) (Z.of_N pl) = size_reject (Z.of_N (tr + pl)) (Z.of_N mx) 0.
 Proof. unfold size_reject. lia. Qed.
 
 Lemma known_cases op : known_opcode op = true -> op = 0 \/ op = 1 \/ op = 2 \/ op = 8 \/ op = 9 \/ op = 10.
@@ -218,20 +219,20 @@ Proof.
     replace (s_lflag s =? 127) with false by lia. cbn [andb].
     destruct (is_data (s_fop s)); cbn [andb]; [|rewrite andb_false_r; reflexivity].
     rewrite andb_true_r. destruct (negb (max_msg_size c =? 0)); cbn [andb]; [|reflexivity].
-    destruct (max_msg_size c <=? s_lflag s + lenN (m_partial (s_m s))); reflexivity. }
+    destruct (size_reject _ _ _); reflexivity. }
   destruct (s_lflag s =? 126) eqn:E2.
   { replace (s_lflag s =? 127) with false by lia. cbn [andb].
     destruct d as [|b0 [|b1 r]]; try reflexivity. rewrite size_reject_gen.
     destruct (is_data (s_fop s)); cbn [andb]; [|rewrite andb_false_r; reflexivity].
     rewrite andb_true_r. destruct (negb (max_msg_size c =? 0)); cbn [andb]; [|reflexivity].
-    destruct (max_msg_size c <=? be_num 0 [b0; b1] + lenN (m_partial (s_m s))); reflexivity. }
+    destruct (size_reject _ _ _); reflexivity. }
   replace (126 <? s_lflag s) with true by lia. replace (s_lflag s =? 127) with true by lia. cbn [andb].
   destruct d as [|b0 [|b1 [|b2 [|b3 [|b4 [|b5 [|b6 [|b7 r]]]]]]]]; try reflexivity.
   rewrite size_reject_gen.
   destruct (9223372036854775807 <? be_num 0 [b0; b1; b2; b3; b4; b5; b6; b7]); [reflexivity|].
   destruct (is_data (s_fop s)); cbn [andb]; [|rewrite andb_false_r; reflexivity].
   rewrite andb_true_r. destruct (negb (max_msg_size c =? 0)); cbn [andb]; [|reflexivity].
-  destruct (max_msg_size c <=? be_num 0 [b0; b1; b2; b3; b4; b5; b6; b7] + lenN (m_partial (s_m s))); reflexivity.
+  destruct (size_reject _ _ _); reflexivity.
 Qed.
 
 
@@ -494,26 +495,71 @@ Qed.
 
 End Main.
 
-(* where the two profiles differ: exactly at "payload = max_msg_size" and at close code 1006 *)
-Lemma profile_gap_wire mx n : n <> mx -> wire_too_big rfc_profile mx n = wire_too_big aiohttp_profile mx n.
-Proof. cbn [wire_too_big rfc_profile aiohttp_profile]. lia. Qed.
-
-Lemma profile_gap_msg mx n : msg_too_big rfc_profile mx n = msg_too_big aiohttp_profile mx n.
-Proof. reflexivity. Qed.
-
-Lemma profile_gap_close code : code <> 1006 -> close_ok rfc_profile code = close_ok aiohttp_profile code.
+(* the comparisons regenerated from the code are the RFC / documented ones *)
+Lemma aiohttp_is_rfc :
+  (forall mx n, wire_too_big aiohttp_profile mx n = wire_too_big rfc_profile mx n) /\
+  (forall mx n, msg_too_big aiohttp_profile mx n = msg_too_big rfc_profile mx n) /\
+  (forall code, close_ok aiohttp_profile code = close_ok rfc_profile code).
 Proof.
-  cbn [close_ok rfc_profile aiohttp_profile]. unfold rfc_close_ok, close_code_bad. cbn [ws_mem ALLOWED_CLOSE_CODES]. lia.
+  split; [|split]; intros; cbn [wire_too_big msg_too_big close_ok aiohttp_profile rfc_profile].
+  - unfold size_reject. lia.
+  - reflexivity.
+  - unfold rfc_close_ok, close_code_bad. cbn [ws_mem ALLOWED_CLOSE_CODES]. lia.
 Qed.
 
-(* the generated comparisons are exactly the recorded deviations *)
-Lemma aiohttp_is_known_quirks :
-  (forall mx n, wire_too_big aiohttp_profile mx n = wire_too_big known_quirks_profile mx n) /\
-  (forall mx n, msg_too_big aiohttp_profile mx n = msg_too_big known_quirks_profile mx n) /\
-  (forall code, close_ok aiohttp_profile code = close_ok known_quirks_profile code).
+(* the reference decoder only looks at a profile through its three functions *)
+Section ProfileExt.
+Variable Cx : Type.
+Variable decomp : Cx -> bytes -> N -> dres Cx.
+Variables p q : profile.
+Hypothesis Hw : forall mx n, wire_too_big p mx n = wire_too_big q mx n.
+Hypothesis Hm : forall mx n, msg_too_big p mx n = msg_too_big q mx n.
+Hypothesis Hc : forall code, close_ok p code = close_ok q code.
+
+Lemma finish_ext c st op cmp data rest :
+  finish Cx decomp p c st op cmp data rest = finish Cx decomp q c st op cmp data rest.
 Proof.
-  repeat split; intros; cbn [wire_too_big msg_too_big close_ok aiohttp_profile known_quirks_profile]; try reflexivity.
-  unfold rfc_close_ok, close_code_bad. cbn [ws_mem ALLOWED_CLOSE_CODES]. lia.
+  unfold finish. destruct cmp; [|reflexivity].
+  destruct (decomp _ _ _); try reflexivity. rewrite Hm. reflexivity.
+Qed.
+
+Lemma spec_frame_ext c st s : spec_frame Cx decomp p c st s = spec_frame Cx decomp q c st s.
+Proof.
+  unfold spec_frame.
+  destruct s as [|b0 [|b1 s1]]; try reflexivity.
+  destruct (check_header _ _ _ _); [reflexivity|].
+  destruct (ext_len _ _) as [[len s2]|]; [|reflexivity].
+  rewrite Hw.
+  destruct (_ && _); [reflexivity|]. destruct (_ && _); [reflexivity|].
+  destruct (mask_key _ _) as [[key s3]|]; [|reflexivity].
+  destruct (lenN s3 <? len); [reflexivity|].
+  destruct (is_control _).
+  - unfold control_frame. destruct (_ =? 9); [reflexivity|]. destruct (_ =? 10); [reflexivity|].
+    destruct (apply_mask _ _) as [|x [|y reason]]; try reflexivity. rewrite Hc. reflexivity.
+  - unfold data_frame.
+    destruct (_ =? 0); destruct (sp_cur st) as [[op cmp]|]; try reflexivity;
+      destruct (h_fin _); try reflexivity; apply finish_ext.
+Qed.
+
+Lemma spec_run_ext c fuel : forall st s acc, spec_run Cx decomp p c fuel st s acc = spec_run Cx decomp q c fuel st s acc.
+Proof.
+  induction fuel as [|f IH]; intros; cbn [spec_run]; [reflexivity|]. rewrite spec_frame_ext.
+  destruct (spec_frame Cx decomp q c st s); try reflexivity. apply IH.
+Qed.
+
+Lemma decode_ext c cx0 s : decode Cx decomp p c cx0 s = decode Cx decomp q c cx0 s.
+Proof. unfold decode. apply spec_run_ext. Qed.
+End ProfileExt.
+
+Theorem refines_rfc (Cx : Type) (decomp : Cx -> bytes -> N -> dres Cx) c cx0 segs :
+  let r := feed_all Cx decomp c (Live (init_state Cx cx0)) segs in
+  let d := decode Cx decomp rfc_profile c cx0 (concat segs) in
+  (forall e, snd d <> Violation e VDataInMessage) ->
+  fst r = fst d /\ rd_status (snd r) = out_status (snd d).
+Proof.
+  destruct aiohttp_is_rfc as (Hw & Hm & Hc).
+  cbn zeta. rewrite <- (decode_ext Cx decomp aiohttp_profile rfc_profile Hw Hm Hc).
+  exact (refines_aiohttp_profile Cx decomp c cx0 segs).
 Qed.
 
 (* instance used by the refutation witnesses and examples of Props/C12.v *)
